@@ -1102,6 +1102,7 @@ def run(ctx: Ctx) -> None:
 
 _SC = "/scipy"
 WITNESSES = [
+    {"name": "seeded-C18-12", "file": "mlearning/transformers/dimension_reduction/klsvd.py", "old": "        \"\"\"Update OpenTURNS constants by using its ResourceMap.\"\"\"\n        use_random_svd = self.parameters[\"use_random_svd\"]\n        ResourceMap.SetAsBool(self.__USE_RANDOM_SVD, use_random_svd)\n        n_singular_values = self.parameters[\"n_singular_values\"]\n", "new": "        \"\"\"Update OpenTURNS constants by using its ResourceMap.\"\"\"\n        if self.parameters[\"use_random_svd\"]:\n            ResourceMap.SetAsBool(self.__USE_RANDOM_SVD, True)\n        n_singular_values = self.parameters[\"n_singular_values\"]\n", "expect": "18.9", "note": "KLSVD: the OpenTURNS 'UseRandomSVD' flag is only written when use_random_svd=Tru"},
     {"name": "multiquadric-derivative-loses-epsilon", "file": RBF, "old": "            return input_data / eps**2 / sqrt((norm_input_data / eps) ** 2 + 1)", "new": "            return input_data / sqrt(norm_input_data**2 + eps**2)", "expect": "18.1"},
     {"name": "gaussian-derivative-sign", "file": RBF, "old": "            return -2 * input_data / eps**2 * exp(-((norm_input_data / eps) ** 2))", "new": "            return 2 * input_data / eps**2 * exp(-((norm_input_data / eps) ** 2))", "expect": "18.1"},
     {"name": "inverse-multiquadric-exponent", "file": RBF, "old": "((norm_input_data / eps) ** 2 + 1) ** 1.5", "new": "((norm_input_data / eps) ** 2 + 1) ** 0.5", "expect": "18.1"},
